@@ -1,6 +1,8 @@
 from props import *  # noqa: F401,F403
 
 rc_bin("c03_sched", ["harness/c03_export_bounds.cc"], lib=False, shadow=BATCH_SHADOW + READER_SHADOW + SIMPLE_SHADOW, shadow_srcs=BATCH_SHADOW_SRCS + READER_SHADOW_SRCS + SIMPLE_SHADOW_SRCS, repo_srcs=BATCH_PLAIN)
+rc_bin("c03_thr", ["harness/batch_thr.cc"], lib=True, defines=['VH_PROP_ID=\\"C03\\"'])
+rc_bin("c03_thr_tsan", ["harness/batch_thr.cc"], lib=True, san="tsan", defines=['VH_PROP_ID=\\"C03\\"'])
 PROPS["C03"] = dict(
     level_text="Same schedule-controlled engine: the exporter keeps an in-flight counter (never above 1 per exporter instance, with a yield/virtual sleep inside Export to invite overlap) and every delivered batch must hold 1..max_export_batch_size records, including histories with a ForceFlush before later production and the shutdown drain path.",
     technique="generated schedules over a deterministic scheduler shim (rapidcheck choice streams) + history-invariant oracle",
@@ -9,6 +11,10 @@ PROPS["C03"] = dict(
     runs=[
         run("bsp", "c03_sched", "bsp_sched", "rc", dict(procs=6, cases=1500), dict(procs=10, cases=20000), asan_extra=SCHED_ASAN),
         run("blp", "c03_sched", "blp_sched", "rc", dict(procs=6, cases=1500), dict(procs=6, cases=20000), asan_extra=SCHED_ASAN),
+        run("bsp-threads-tsan", "c03_thr_tsan", "bsp_threads", "rc", dict(procs=1, cases=150), dict(procs=3, cases=3000), deterministic=False, replay_bin="c03_thr_tsan"),
+        run("blp-threads-tsan", "c03_thr_tsan", "blp_threads", "rc", dict(procs=1, cases=150), dict(procs=3, cases=3000), deterministic=False, replay_bin="c03_thr_tsan"),
+        run("bsp-threads", "c03_thr", "bsp_threads", "rc", dict(procs=1, cases=150), dict(procs=3, cases=3000), deterministic=False),
+        run("blp-threads", "c03_thr", "blp_threads", "rc", dict(procs=1, cases=150), dict(procs=3, cases=3000), deterministic=False),
         run("simple", "c03_sched", "simple_sched", "rc", dict(procs=3, cases=2500), dict(procs=4, cases=30000), asan_extra=SCHED_ASAN),
         run("reader", "c03_sched", "reader_sched", "rc", dict(procs=4, cases=1500), dict(procs=6, cases=20000), asan_extra=SCHED_ASAN),
     ],
